@@ -17,7 +17,10 @@ import (
 // discharged (idioms and their rewrites) and — more important — what must not.
 const arithSrc = `package p
 
-import "strings"
+import (
+	"sort"
+	"strings"
+)
 
 type T struct {
 	items []int
@@ -33,6 +36,44 @@ func (s *stack) pop() { *s = (*s)[:len(*s)-1] }
 func other() {}
 
 // --- must be discharged ---
+
+func okSort(in []int) []int {
+	c := make([]int, len(in))
+	copy(c, in)
+	sort.Slice(c, func(a, b int) bool { return c[a] < c[b] })
+	return c
+}
+
+func (t *T) okSortField() {
+	sort.SliceStable(t.items, func(x, y int) bool {
+		switch {
+		case t.items[x] != t.items[y]:
+			return t.items[x] < t.items[y]
+		}
+		return false
+	})
+}
+
+func use(p *int) int { return *p }
+
+func okSortElemAddr(in []int) {
+	sort.SliceStable(in, func(a, b int) bool { return use(&in[a]) < use(&in[b]) })
+}
+
+func badSortOther(in, other []int) {
+	sort.Slice(in, func(a, b int) bool { return other[a] < other[b] })
+}
+
+func badSortReassigned(in, other []int) {
+	sort.Slice(in, func(a, b int) bool {
+		in = other
+		return in[a] < in[b]
+	})
+}
+
+func badSortOffset(in []int) {
+	sort.Slice(in, func(a, b int) bool { return in[a+1] < in[b+1] })
+}
 
 func okMake(x int) []int {
 	a := make([]int, 3)
@@ -270,6 +311,9 @@ func TestArith(t *testing.T) {
 		"p.(*T).find":        {"t.items[n]"},
 		"p.okHelper":         {"t.items[i]"},
 		"p.okAndAnd":         {"s[i]"},
+		"p.okSort$1":         {"c[a]", "c[b]"},
+		"p.okSortElemAddr$1": {"in[a]", "in[b]"},
+		"p.(*T).okSortField$1": {"t.items[x]", "t.items[y]"},
 		"p.okMake":           {"a[0]", "a[2]", "a[1]", "b[1]", "a[:3]", "b[:2]"},
 	}
 	for fn, w := range want {
